@@ -28,6 +28,10 @@ pub struct Cfg {
     /// (user, batch id, bSei amount); the hub starts paused when non-empty
     #[serde(default)]
     pub legacy_wait: Vec<(String, u64, Uint128)>,
+    /// further legacy entries of holders that are not simulated users (`legacyholder<i>`,
+    /// batch 0, amount i + 1): lists longer than the hub's default page of 1000
+    #[serde(default)]
+    pub legacy_bulk: u32,
     /// token-focused world of C18(b): initial balances for both tokens, no hub
     #[serde(default)]
     pub token_world: Option<TokenWorld>,
@@ -82,6 +86,7 @@ pub fn default_cfg() -> Cfg {
         user_funds: Uint128::new(1_000_000_000_000),
         genesis_time: 1_000_000,
         legacy_wait: vec![],
+        legacy_bulk: 0,
         token_world: None,
         reverse_delegation_order: false,
         swap_extra_round_down: false,
@@ -243,7 +248,7 @@ pub fn deploy_staged(cfg: &Cfg, stage: Option<u8>) -> Result<Deployed, String> {
         }
     }
 
-    if !cfg.legacy_wait.is_empty() {
+    if !cfg.legacy_wait.is_empty() || cfg.legacy_bulk > 0 {
         seed_legacy_wait(&mut w, cfg)?;
     }
     let _ = &mut rejected;
@@ -278,7 +283,8 @@ fn seed_legacy_wait(w: &mut World, cfg: &Cfg) -> Result<(), String> {
     use cosmwasm_std::Storage;
     let inst = w.contracts.get_mut(HUB).unwrap();
     let mut ms = wasm::MemStore(&mut inst.storage);
-    for (user, batch, amount) in &cfg.legacy_wait {
+    let bulk: Vec<(String, u64, Uint128)> = (0..cfg.legacy_bulk).map(|i| (format!("legacyholder{}", i), 0u64, Uint128::new(i as u128 + 1))).collect();
+    for (user, batch, amount) in cfg.legacy_wait.iter().chain(bulk.iter()) {
         let addr = to_json_vec(user).map_err(|e| e.to_string())?;
         let b = to_json_vec(batch).map_err(|e| e.to_string())?;
         // key layout of cosmwasm_storage::to_length_prefixed_nested(&[b"wait", addr]) + key
